@@ -60,7 +60,7 @@ theorem expression_pushes_one (e : CExpr) (C : List Instr) (K : List Val) (pos k
   ⟨_, compile_correct e C K pos k stk g v g' h hp he, by simp⟩
 
 
-/-! ## calls (`P2sh.Core.Fn`: first-order functions)
+/-! ## calls (`P2sh.Core.Fn`: functions and closures)
 
 A call leaves exactly one value in place of the callee and the arguments — also when the callee
 returns by `return` from inside nested loops and blocks (its whole activation, operands
@@ -75,7 +75,7 @@ loops, blocks, `return` at any nesting, recursion), with any operands `ops` unde
 activation: afterwards the machine is after the `Call`, the stack is one higher than before the
 callee expression was evaluated, the frame stack is the caller's again -/
 theorem call_pushes_one {Φ : FnDef → Option FDecl} {K : List Val} {F : FnDef → Option (List Instr)} (hL : Linked Φ K F)
-    (fuel : Nat) (l : Nat) (f : FExpr) (args : FArgs) (X : Ctxt) (pos k : Nat) (ops : List Val) (cx : Option FnDef) (σ σ' : Sto) (v : Val)
+    (fuel : Nat) (l : Nat) (f : FExpr) (args : FArgs) (X : Ctxt) (pos k : Nat) (ops : List Val) (cx : Option (FnDef × Nat)) (σ σ' : Sto) (v : Val)
     (h : codeAt X.code pos (compileE pos k (.call l f args))) (hp : poolAt K k (constsE (.call l f args))) (hx : Agree cx X)
     (he : evalE Φ fuel cx σ (.call l f args) = some (v, σ')) :
     ∃ st', FSteps K F (X.st pos ops σ) st' ∧
@@ -88,7 +88,7 @@ theorem call_pushes_one {Φ : FnDef → Option FDecl} {K : List Val} {F : FnDef 
 
 /-- **a call statement leaves the stack as it was** -/
 theorem call_statement_balanced {Φ : FnDef → Option FDecl} {K : List Val} {F : FnDef → Option (List Instr)} (hL : Linked Φ K F)
-    (fuel : Nat) (ls l : Nat) (f : FExpr) (args : FArgs) (X : Ctxt) (pos k : Nat) (ctx : List LoopCtx) (ops : List Val) (cx : Option FnDef)
+    (fuel : Nat) (ls l : Nat) (f : FExpr) (args : FArgs) (X : Ctxt) (pos k : Nat) (ctx : List LoopCtx) (ops : List Val) (cx : Option (FnDef × Nat))
     (σ σ' : Sto) (bv : Val)
     (h : codeAt X.code pos (compileS pos k ctx (.expr ls (.call l f args)))) (hp : poolAt K k (constsS (.expr ls (.call l f args))))
     (hx : Agree cx X) (he : evalS Φ fuel cx σ (.expr ls (.call l f args)) = some (σ', .normal, bv)) :
@@ -105,7 +105,7 @@ ending normally or by `break` / `continue` it leaves the operands `ops` it start
 local slots; ending by `return` it leaves the caller with exactly the returned value in place of
 the callee slot -/
 theorem statement_balanced_fn {Φ : FnDef → Option FDecl} {K : List Val} {F : FnDef → Option (List Instr)} (hL : Linked Φ K F)
-    (fuel : Nat) (s : FStmt) (X : Ctxt) (pos k : Nat) (ctx : List LoopCtx) (ops : List Val) (cx : Option FnDef) (σ σ' : Sto) (f : FFlow) (bv : Val)
+    (fuel : Nat) (s : FStmt) (X : Ctxt) (pos k : Nat) (ctx : List LoopCtx) (ops : List Val) (cx : Option (FnDef × Nat)) (σ σ' : Sto) (f : FFlow) (bv : Val)
     (h : codeAt X.code pos (compileS pos k ctx s)) (hp : poolAt K k (constsS s)) (hx : Agree cx X)
     (he : evalS Φ fuel cx σ s = some (σ', f, bv)) :
     FSteps K F (X.st pos ops σ) (exitS X ctx (pos + bytes (compileS pos k ctx s)) ops σ' f) :=
